@@ -211,6 +211,18 @@ where
     }
 }
 
+#[cfg(feature = "verif-hooks")]
+impl<T> Broadcasts<T> {
+    // (remaining_tx, data) of every pending entry, unordered
+    pub(crate) fn verif_entries(&self) -> Vec<(usize, Vec<u8>)> {
+        self.flip
+            .iter()
+            .chain(self.flop.iter())
+            .map(|entry| (entry.remaining_tx, entry.data.clone()))
+            .collect()
+    }
+}
+
 #[derive(Debug, Clone)]
 struct Entry<T> {
     remaining_tx: usize,
